@@ -100,6 +100,8 @@ pub fn c06_case(seed: u64, case: u64) -> CaseResult {
     let y: Vec<String> = vec!["e3".into()];
     let ver = BTreeMap::new();
     let mut log: Vec<String> = vec![];
+    let mut finals: Vec<(Vec<String>, Vec<String>, BTreeMap<String, u32>)> = vec![];
+    // phase 1: common origin, concurrent edits, replica 0 collects everybody's blocks
     let run = guard(|| {
         reps[0].1.update(doc2(&x, &y, &ver).as_object().unwrap().clone())?;
         reps[0].1.commit(None)?;
@@ -108,7 +110,9 @@ pub fn c06_case(seed: u64, case: u64) -> CaseResult {
             b[0].1.meld(&a[0].1)?;
             b[0].1.refresh()?;
         }
-        // concurrent edits, 1-2 commits each
+        // sometimes every replica ends with the very same edit (same element prepended, or the head
+        // removed), so that the last edit scripts of the branches are identical
+        let same_last = r.below(5);
         for i in 0..nrep {
             let (mut xi, mut yi, mut vi) = (x.clone(), y.clone(), ver.clone());
             for _ in 0..1 + r.below(2) {
@@ -118,7 +122,153 @@ pub fn c06_case(seed: u64, case: u64) -> CaseResult {
                 reps[i].1.update(d.as_object().unwrap().clone())?;
                 reps[i].1.commit(None)?;
             }
+            if same_last <= 1 {
+                if same_last == 0 {
+                    xi.retain(|e| e != "e9");
+                    yi.retain(|e| e != "e9");
+                    xi.insert(0, "e9".into());
+                } else if !xi.is_empty() {
+                    xi.remove(0);
+                }
+                let d = doc2(&xi, &yi, &vi);
+                log.push(format!("r{} (same last edit): {}", i, d));
+                reps[i].1.update(d.as_object().unwrap().clone())?;
+                reps[i].1.commit(None)?;
+            }
+            finals.push((xi, yi, vi));
         }
+        for j in 1..nrep {
+            let (a, b) = reps.split_at_mut(j);
+            a[0].1.meld(&b[0].1)?;
+        }
+        reps[0].1.refresh()
+    });
+    res.trace = log.clone();
+    match run {
+        Outcome::Ok(()) => {}
+        Outcome::Err(e) => {
+            res.viol("C08", "operation-returned-error-in-merge-history", e);
+            return res;
+        }
+        Outcome::Panic(p) => {
+            res.viol("C08", "panic-in-merge-history", p.clone());
+            res.viol("C06", "merge-history-panicked", p);
+            return res;
+        }
+    }
+    let mut max_leaves = 0u64;
+    let mut agree_total = 0u64;
+    let mut sample = json!(null);
+    // the merge oracle, on replica 0
+    let mut judge = |m: &Melda, phase: &str, res: &mut CaseResult, log: &Vec<String>| -> Option<String> {
+        let (ds, ok) = read_doc(m);
+        if !ok {
+            res.viol("C06", "read-after-merge-failed", format!("{}: {}", phase, ds));
+            return None;
+        }
+        let d: Value = serde_json::from_str(&ds).unwrap();
+        let ka = format!("items{}", FLAT);
+        let kb = format!("tags{}", FLAT);
+        let ra = arr(&d, &ka);
+        let rb = arr(&d, &kb);
+        let la = leaf_orders(m, A);
+        let lb = leaf_orders(m, B);
+        max_leaves = max_leaves.max(la.len().max(lb.len()) as u64);
+        let deleted = |id: &str| m.get_winner(id).map(|w| is_deleted_rev(&w)).unwrap_or(true);
+        let mut want: BTreeSet<String> = BTreeSet::new();
+        let mut dead: BTreeSet<String> = BTreeSet::new();
+        for (_, o) in la.iter().chain(lb.iter()) {
+            for e in o {
+                if !deleted(e) {
+                    want.insert(e.clone());
+                } else {
+                    dead.insert(e.clone());
+                }
+            }
+        }
+        let all: Vec<String> = ra.iter().chain(rb.iter()).cloned().collect();
+        let got: BTreeSet<String> = all.iter().cloned().collect();
+        let ctx = format!("{}: edits {:?}; leaves items {:?}; leaves tags {:?}; read items {:?} tags {:?}", phase, log, la, lb, ra, rb);
+        if got.len() != all.len() {
+            res.viol("C06", "element-duplicated", ctx.clone());
+        }
+        if !want.is_subset(&got) {
+            res.viol("C06", "element-lost", format!("missing {:?}; {}", want.difference(&got).collect::<Vec<_>>(), ctx));
+        }
+        if got.iter().any(|e| dead.contains(e)) {
+            res.viol("C06", "deleted-element-reappears", ctx.clone());
+        }
+        if !got.is_subset(&want) && !got.iter().any(|e| dead.contains(e)) {
+            res.viol("C06", "unexpected-element", format!("extra {:?}; {}", got.difference(&want).collect::<Vec<_>>(), ctx));
+        }
+        for (name, rs, leaves) in [("items", &ra, &la), ("tags", &rb, &lb)] {
+            if leaves.is_empty() {
+                continue;
+            }
+            let wo: Vec<&String> = leaves[0].1.iter().filter(|e| rs.contains(e)).collect();
+            let ro: Vec<&String> = rs.iter().filter(|e| leaves[0].1.contains(e)).collect();
+            if wo != ro {
+                res.viol("C06", &format!("winner-order-not-kept-{}", name), ctx.clone());
+            }
+            if leaves.len() == 2 {
+                let (p, q) = (&leaves[0].1, &leaves[1].1);
+                let cp: Vec<&String> = p.iter().filter(|e| q.contains(e)).collect();
+                let cq: Vec<&String> = q.iter().filter(|e| p.contains(e)).collect();
+                if cp == cq {
+                    agree_total += 1;
+                    let qo: Vec<&String> = q.iter().filter(|e| rs.contains(e)).collect();
+                    let rq: Vec<&String> = rs.iter().filter(|e| q.contains(e)).collect();
+                    if qo != rq {
+                        res.viol("C06", &format!("compatible-order-not-kept-{}", name), ctx.clone());
+                    }
+                }
+            }
+        }
+        res.count("c06_merges_checked", 1);
+        sample = json!({"phase": phase, "edits": log, "leaves_items": la, "leaves_tags": lb, "read_items": ra, "read_tags": rb});
+        Some(ds)
+    };
+    judge(&reps[0].1, "first sync", &mut res, &log);
+    // phase 2: the other replicas, which have not synchronised, extend their own branches (which may keep
+    // losing); replica 0, which has already read the merged arrays, receives the new blocks and reads again
+    let mut log2 = log.clone();
+    let run2 = guard(|| {
+        for i in 1..nrep {
+            let (mut xi, mut yi, mut vi) = finals[i].clone();
+            edit(&mut r, &mut xi, &mut yi, &mut vi);
+            let d = doc2(&xi, &yi, &vi);
+            log2.push(format!("r{} (after r0 read): {}", i, d));
+            reps[i].1.update(d.as_object().unwrap().clone())?;
+            reps[i].1.commit(None)?;
+        }
+        for j in 1..nrep {
+            let (a, b) = reps.split_at_mut(j);
+            a[0].1.meld(&b[0].1)?;
+        }
+        reps[0].1.refresh()
+    });
+    match run2 {
+        Outcome::Ok(()) => {
+            let ds0 = judge(&reps[0].1, "second sync", &mut res, &log2);
+            // a replica that loads the same items from scratch must read the same document
+            if let (Some(ds0), Outcome::Ok(fresh)) = (ds0, open_with(&store::mem_with(&store::dump(&reps[0].0)), (16, 16))) {
+                let (df, _) = read_doc(&fresh);
+                if df != ds0 {
+                    res.viol("C06", "incrementally-merged-arrays-differ-from-fresh-load", format!("live {} vs fresh {}", ds0, df));
+                    res.viol("C01", "incrementally-merged-arrays-differ-from-fresh-load", format!("live {} vs fresh {}", ds0, df));
+                }
+            }
+        }
+        Outcome::Err(e) => res.viol("C08", "operation-returned-error-in-merge-history", e),
+        Outcome::Panic(p) => {
+            res.viol("C08", "panic-in-merge-history", p.clone());
+            res.viol("C06", "merge-history-panicked", p);
+            return res;
+        }
+    }
+    drop(judge);
+    // finally everybody synchronises: all replicas read the same arrays
+    let fin = guard(|| {
         for _ in 0..2 {
             for i in 0..nrep {
                 for j in 0..nrep {
@@ -138,97 +288,20 @@ pub fn c06_case(seed: u64, case: u64) -> CaseResult {
         }
         Ok(())
     });
-    res.trace = log.clone();
-    match run {
-        Outcome::Ok(()) => {}
-        Outcome::Err(e) => {
-            res.viol("C08", "operation-returned-error-in-merge-history", e);
-            return res;
-        }
-        Outcome::Panic(p) => {
-            res.viol("C08", "panic-in-merge-history", p.clone());
-            res.viol("C06", "merge-history-panicked", p);
-            return res;
-        }
-    }
-    let m = &reps[0].1;
-    let (ds, ok) = read_doc(m);
-    if !ok {
-        res.viol("C06", "read-after-merge-failed", ds);
-        return res;
-    }
-    let d: Value = serde_json::from_str(&ds).unwrap();
-    let ka = format!("items{}", FLAT);
-    let kb = format!("tags{}", FLAT);
-    let ra = arr(&d, &ka);
-    let rb = arr(&d, &kb);
-    let la = leaf_orders(m, A);
-    let lb = leaf_orders(m, B);
-    let nleaves = la.len().max(lb.len());
-    res.features.insert("leaves".into(), nleaves as u64);
-    let deleted = |id: &str| m.get_winner(id).map(|w| is_deleted_rev(&w)).unwrap_or(true);
-    let mut want: BTreeSet<String> = BTreeSet::new();
-    let mut dead: BTreeSet<String> = BTreeSet::new();
-    for (_, o) in la.iter().chain(lb.iter()) {
-        for e in o {
-            if !deleted(e) {
-                want.insert(e.clone());
-            } else {
-                dead.insert(e.clone());
+    if fin.is_ok() {
+        let (d0, _) = read_doc(&reps[0].1);
+        for i in 1..nrep {
+            let (di, _) = read_doc(&reps[i].1);
+            if di != d0 {
+                res.viol("C01", "replicas-read-different-merged-arrays", format!("r0 {} vs r{} {}", d0, i, di));
             }
         }
     }
-    let all: Vec<String> = ra.iter().chain(rb.iter()).cloned().collect();
-    let got: BTreeSet<String> = all.iter().cloned().collect();
-    let ctx = format!("edits {:?}; leaves items {:?}; leaves tags {:?}; read items {:?} tags {:?}", log, la, lb, ra, rb);
-    if got.len() != all.len() {
-        res.viol("C06", "element-duplicated", ctx.clone());
-    }
-    if !want.is_subset(&got) {
-        res.viol("C06", "element-lost", format!("missing {:?}; {}", want.difference(&got).collect::<Vec<_>>(), ctx));
-    }
-    if got.iter().any(|e| dead.contains(e)) {
-        res.viol("C06", "deleted-element-reappears", ctx.clone());
-    }
-    if !got.is_subset(&want) && !got.iter().any(|e| dead.contains(e)) {
-        res.viol("C06", "unexpected-element", format!("extra {:?}; {}", got.difference(&want).collect::<Vec<_>>(), ctx));
-    }
-    let mut agree_cases = 0u64;
-    for (name, rs, leaves) in [("items", &ra, &la), ("tags", &rb, &lb)] {
-        if leaves.is_empty() {
-            continue;
-        }
-        let wo: Vec<&String> = leaves[0].1.iter().filter(|e| rs.contains(e)).collect();
-        let ro: Vec<&String> = rs.iter().filter(|e| leaves[0].1.contains(e)).collect();
-        if wo != ro {
-            res.viol("C06", &format!("winner-order-not-kept-{}", name), ctx.clone());
-        }
-        if leaves.len() == 2 {
-            let (p, q) = (&leaves[0].1, &leaves[1].1);
-            let cp: Vec<&String> = p.iter().filter(|e| q.contains(e)).collect();
-            let cq: Vec<&String> = q.iter().filter(|e| p.contains(e)).collect();
-            if cp == cq {
-                agree_cases += 1;
-                let qo: Vec<&String> = q.iter().filter(|e| rs.contains(e)).collect();
-                let rq: Vec<&String> = rs.iter().filter(|e| q.contains(e)).collect();
-                if qo != rq {
-                    res.viol("C06", &format!("compatible-order-not-kept-{}", name), ctx.clone());
-                }
-            }
-        }
-    }
-    res.features.insert("order_compatible".into(), agree_cases);
-    res.features.insert("moved_between_arrays".into(), la.iter().flat_map(|l| l.1.iter()).filter(|e| lb.iter().any(|l| l.1.contains(e))).count().min(1) as u64);
-    res.features.insert("deleted_elements".into(), dead.len().min(2) as u64);
-    res.count("c06_merges_checked", 1);
-    for i in 1..nrep {
-        let (di, _) = read_doc(&reps[i].1);
-        if di != ds {
-            res.viol("C01", "replicas-read-different-merged-arrays", format!("r0 {} vs r{} {}", ds, i, di));
-        }
-    }
-    res.opkinds = format!("{:?}{:?}", la.iter().map(|l| l.1.clone()).collect::<Vec<_>>(), lb.iter().map(|l| l.1.clone()).collect::<Vec<_>>());
-    res.sample = Some(json!({"edits": log, "leaves_items": la, "leaves_tags": lb, "read_items": ra, "read_tags": rb}));
+    res.trace = log2;
+    res.features.insert("leaves".into(), max_leaves);
+    res.features.insert("order_compatible".into(), agree_total);
+    res.opkinds = format!("{:?}", sample.get("leaves_items"));
+    res.sample = Some(sample);
     res
 }
 pub fn c06_nontrivial(res: &CaseResult) -> bool {
